@@ -357,6 +357,12 @@ pub fn run(
                     Verdict::Go
                 } else if ev.kind == "lock.blocked" {
                     Verdict::Go
+                } else if ev.kind == "aot.main" || ev.kind == "aot.const" {
+                    // The moment the background-compiled artefact becomes visible is wall-clock
+                    // time; under this coordinator it is always "from the first dispatch"
+                    // (2 = wait for the real compile, then use it). The swap point itself is
+                    // swapsim's dimension (C33).
+                    Verdict::Value(2)
                 } else {
                     decider.verdict(&a.name, &ev, seq, a.nseq)
                 };
